@@ -179,6 +179,12 @@ pub open spec fn spec_val_dec(tag: u8, b: Seq<u8>) -> Option<AVal> {
 
 // ------------------------------------------------------------------ encoder (RFC 8010 §3.1, §3.9)
 
+/// version-number (2 octets), operation-id / status-code (2), request-id (4), big-endian (§3.1.1)
+pub open spec fn spec_header_enc(h: crate::IppHeader) -> Seq<u8> {
+    enc16(h.version.0) + enc16(h.operation_or_status) + enc32(h.request_id)
+}
+
+
 /// Value field of a scalar value (the octets after its value-length).
 pub open spec fn scalar_body(a: AVal) -> Seq<u8> {
     match a {
